@@ -20,7 +20,7 @@ LEVEL = "exploration"
 tiers = {
     "quick": {"runs": 4000, "chunk": 40, "wall_cap_s": 900, "determinism_samples": 8,
               "max_minimise": 3, "minimise_budget_s": 45},
-    "thorough": {"runs": 120000, "chunk": 100, "wall_cap_s": 3300, "determinism_samples": 40,
+    "thorough": {"runs": 60000, "chunk": 100, "wall_cap_s": 3300, "determinism_samples": 40,
                  "max_minimise": 5, "minimise_budget_s": 120},
 }
 
@@ -75,6 +75,11 @@ def gen_plan(seed: int, run: int, tier: str) -> dict:
     ok_models = sorted({m for m, t in ok_pairs if t in targets_ok})
     rep_models = sorted({m for m, t in rep_pairs})
     base = rng.choice(ok_models)
+    big = tier == "thorough" and run % 750 == 0
+    if big:
+        # the 180 KB meta-model: a 3.9 MB pickle gives long write windows (hundreds of raw writes)
+        n_actors, n_texts = rng.choice([2, 3]), 1
+        base = "common/aas_core_meta.v3"
     for i in range(n_texts):
         r = rng.random()
         if i == 0 or r < 0.45:
@@ -97,6 +102,8 @@ def gen_plan(seed: int, run: int, tier: str) -> dict:
         cands = [t for (m, t) in ok_pairs + rep_pairs
                  if m == texts[ti]["model"] and (t in targets_ok)]
         target = rng.choice(sorted(set(cands))) if cands else rng.choice(targets_ok)
+        if big:
+            target = rng.choice(["jsonschema", "xsd"])
         path = (f"d{i}/meta_model.py" if same_name else f"m{i}_{ti}.py")
         if rng.random() < 0.25 and i > 0:
             path = actors[rng.randrange(len(actors))]["path"] if \
@@ -125,7 +132,8 @@ def gen_plan(seed: int, run: int, tier: str) -> dict:
         policy = {"kind": "sequential"}
     knobs = {
         "bufsize": rng.choice([64, 512, 4096, 8192, 8192, 65536]),
-        "max_io": rng.choice([257, 1024, 4096, 1 << 16, 1 << 30]),
+        "max_io": rng.choice([65536, 1 << 20]) if big else rng.choice([257, 1024, 4096, 1 << 16, 1 << 30]),
+        "big": big,
         "p_w": rng.choice([0.02, 0.05, 0.15, 0.4]),
         "max_faults": rng.choice([1, 1, 2]) if config == "crash" else (1 if config == "errno" else 0),
     }
@@ -213,7 +221,10 @@ def execute(plan: dict) -> dict:
     refs: Dict[Tuple[int, str], repo.RunResult] = {}
     needed = {(a["text"], a["target"]) for a in plan["actors"]}
     for ti, target in sorted(needed):
-        ref = repo.reference(texts[ti], target)
+        if plan["knobs"].get("big"):
+            ref = repo.reference(texts[ti], target, snippets_dir=repo.big_snippets_dir(target))
+        else:
+            ref = repo.reference(texts[ti], target)
         if ref.exc is not None:
             out["inconclusive"] = "reference-raises"
             return out
@@ -223,6 +234,9 @@ def execute(plan: dict) -> dict:
     try:
         sdirs: Dict[str, str] = {}
         for target in sorted({a["target"] for a in plan["actors"]}):
+            if plan["knobs"].get("big"):
+                sdirs[target] = repo.big_snippets_dir(target)
+                continue
             sdirs[target] = sb.path("snippets", target)
             repo.write_tree(sdirs[target], repo.min_snippets(target))
         for a in plan["actors"]:
@@ -236,7 +250,8 @@ def execute(plan: dict) -> dict:
             fault_roles=("tmp",), policy=plan["policy"], schedule=plan.get("schedule"),
             faults=plan.get("faults"), fault_policy=_fault_policy(plan),
             bufsize=int(knobs.get("bufsize", 8192)), max_io=int(knobs.get("max_io", 1 << 30)),
-            step_cap=int(knobs.get("step_cap", 4000)),
+            step_cap=int(knobs.get("step_cap", 40000 if knobs.get("big") else 4000)),
+            watchdog_s=600.0 if knobs.get("big") else 120.0,
         )
         sim.pre_faults = 0  # type: ignore[attr-defined]
         results: Dict[str, repo.RunResult] = {}
